@@ -14,7 +14,8 @@
   * `rxMatch` — `regex::bytes::Regex::new(r).is_match(s)` for the regex that `matches_word`
                 builds from the chunk list, `(?-u:^|\W|\b) chunks (?-u:\b|\W|$)`;
   * `isUserId` — `<&UserId>::try_from` succeeds (identifier validation, property C10).
-  The assumptions made about them are the fields of `ExtOk`.
+  The assumptions made about `wild` and `rxMatch` are the fields of `ExtOk`
+  (`Lemmas/PushPattern.lean`); `lower` and `isUserId` are arbitrary functions in every theorem.
 -/
 set_option linter.unusedVariables false
 namespace Ruma.Push
